@@ -10,6 +10,7 @@ package main
 
 import (
 	"fmt"
+	"os"
 	"sort"
 	"strconv"
 	"strings"
@@ -67,18 +68,28 @@ func kindIs(kind string, args ...string) func(Event) bool {
 	}
 }
 
+func ex(i int) string { return fmt.Sprintf("x%d", i) }
+
+// build emits the constraints of a PARTIAL execution of the recorded events:
+// x_i says whether event i is executed, c_i is its clock.  The executed
+// events are prefix-closed per thread and every executed event sees what it
+// saw in the recorded run.
 func (p *PO) build() {
 	n := len(p.ev)
 	add := func(s string) { p.base = append(p.base, s) }
 	for i := 0; i < n; i++ {
 		add(fmt.Sprintf("(declare-const c%d Int)", i))
+		add(fmt.Sprintf("(declare-const x%d Bool)", i))
 		add(fmt.Sprintf("(assert (>= c%d 0))", i))
 	}
-	// program order
+	both := func(a, b int, body string) string {
+		return fmt.Sprintf("(=> (and x%d x%d) %s)", a, b, body)
+	}
+	// program order, prefix closure
 	last := map[int]int{}
 	for i, e := range p.ev {
 		if j, ok := last[e.Tid]; ok {
-			add("(assert " + lt(j, i) + ")")
+			add(fmt.Sprintf("(assert (=> x%d (and x%d %s)))", i, j, lt(j, i)))
 		}
 		last[e.Tid] = i
 	}
@@ -93,7 +104,7 @@ func (p *PO) build() {
 		if e.Kind == "spawn" && len(e.Args) > 0 {
 			if child, err := strconv.Atoi(e.Args[0]); err == nil {
 				if f, ok := firstOf[child]; ok {
-					add("(assert " + lt(i, f) + ")")
+					add(fmt.Sprintf("(assert (=> x%d (and x%d %s)))", f, i, lt(i, f)))
 				}
 			}
 		}
@@ -105,7 +116,7 @@ func (p *PO) build() {
 		write bool
 	}
 	sections := map[string][]sect{}
-	open := map[string]map[int][]sect{} // mutex -> tid -> stack
+	open := map[string]map[int][]sect{}
 	for i, e := range p.ev {
 		switch e.Kind {
 		case "lock", "rlock":
@@ -128,7 +139,7 @@ func (p *PO) build() {
 	for m, byTid := range open {
 		for _, st := range byTid {
 			for _, s := range st {
-				sections[m] = append(sections[m], s) // never released
+				sections[m] = append(sections[m], s)
 			}
 		}
 	}
@@ -141,20 +152,20 @@ func (p *PO) build() {
 				}
 				var alts []string
 				if x.u >= 0 {
-					alts = append(alts, lt(x.u, y.l))
+					alts = append(alts, fmt.Sprintf("(and x%d %s)", x.u, lt(x.u, y.l)))
 				}
 				if y.u >= 0 {
-					alts = append(alts, lt(y.u, x.l))
+					alts = append(alts, fmt.Sprintf("(and x%d %s)", y.u, lt(y.u, x.l)))
 				}
 				if len(alts) == 0 {
-					add("(assert false)")
+					add("(assert " + both(x.l, y.l, "false") + ")")
 				} else {
-					add("(assert (or " + strings.Join(alts, " ") + "))")
+					add("(assert " + both(x.l, y.l, "(or "+strings.Join(alts, " ")+")") + ")")
 				}
 			}
 		}
 	}
-	// wait groups: a Wait returns only when the counter is zero
+	// wait groups
 	wgOps := map[string][]int{}
 	for i, e := range p.ev {
 		switch e.Kind {
@@ -178,9 +189,9 @@ func (p *PO) build() {
 			}
 			var terms []string
 			for _, o := range ops {
-				terms = append(terms, fmt.Sprintf("(ite (< c%d c%d) %d 0)", o, i, delta(o)))
+				terms = append(terms, fmt.Sprintf("(ite (and x%d (< c%d c%d)) %d 0)", o, o, i, delta(o)))
 			}
-			add("(assert (= 0 (+ 0 " + strings.Join(terms, " ") + ")))")
+			add(fmt.Sprintf("(assert (=> x%d (= 0 (+ 0 %s))))", i, strings.Join(terms, " ")))
 		}
 	}
 	for _, ops := range wgOps {
@@ -193,9 +204,9 @@ func (p *PO) build() {
 				if o == d {
 					continue
 				}
-				terms = append(terms, fmt.Sprintf("(ite (< c%d c%d) %d 0)", o, d, delta(o)))
+				terms = append(terms, fmt.Sprintf("(ite (and x%d (< c%d c%d)) %d 0)", o, o, d, delta(o)))
 			}
-			add("(assert (>= (+ -1 0 " + strings.Join(terms, " ") + ") 0))")
+			add(fmt.Sprintf("(assert (=> x%d (>= (+ -1 0 %s) 0)))", d, strings.Join(terms, " ")))
 		}
 	}
 	// context cancellation
@@ -213,16 +224,16 @@ func (p *PO) build() {
 		if e.Args[1] == "true" {
 			var alts []string
 			for _, c := range cs {
-				alts = append(alts, lt(c, i))
+				alts = append(alts, fmt.Sprintf("(and x%d %s)", c, lt(c, i)))
 			}
 			if len(alts) == 0 {
-				add("(assert false)")
+				add(fmt.Sprintf("(assert (not x%d))", i))
 			} else {
-				add("(assert (or " + strings.Join(alts, " ") + "))")
+				add(fmt.Sprintf("(assert (=> x%d (or %s)))", i, strings.Join(alts, " ")))
 			}
 		} else {
 			for _, c := range cs {
-				add("(assert " + lt(i, c) + ")")
+				add("(assert " + both(i, c, lt(i, c)) + ")")
 			}
 		}
 	}
@@ -235,11 +246,11 @@ func (p *PO) build() {
 			var alts []string
 			for j, a := range p.ev {
 				if a.Kind == kindA && matchA(a, b) {
-					alts = append(alts, lt(j, i))
+					alts = append(alts, fmt.Sprintf("(and x%d %s)", j, lt(j, i)))
 				}
 			}
 			if len(alts) > 0 {
-				add("(assert (or " + strings.Join(alts, " ") + "))")
+				add(fmt.Sprintf("(assert (=> x%d (or %s)))", i, strings.Join(alts, " ")))
 			}
 		}
 	}
@@ -250,12 +261,12 @@ func (p *PO) build() {
 	after("setReadDeadline", same0, "read.timeout")
 	after("gate.open", same0, "gate.pass")
 	after("listen.ok", anyEv, "accept")
-	// an accept that returned a connection happened before the listener was closed
+	after("chan.close", same0, "chan.recv")
 	for i, e := range p.ev {
 		if e.Kind == "accept" {
 			for j, c := range p.ev {
 				if c.Kind == "listener.close" {
-					add("(assert " + lt(i, j) + ")")
+					add("(assert " + both(i, j, lt(i, j)) + ")")
 				}
 			}
 		}
@@ -284,22 +295,30 @@ func (p *PO) build() {
 			}
 		}
 		if len(cands) == 0 {
-			// reads the initial value: every writer of a different value comes later
 			for _, w := range others {
-				p.rf[i] = append(p.rf[i], "(assert "+lt(i, w)+")")
+				p.rf[i] = append(p.rf[i], "(assert "+both(i, w, lt(i, w))+")")
 			}
 			continue
 		}
 		var alts []string
 		for _, w := range cands {
-			conj := []string{lt(w, i)}
+			conj := []string{ex(w), lt(w, i)}
 			for _, o := range others {
-				conj = append(conj, fmt.Sprintf("(or %s %s)", lt(o, w), lt(i, o)))
+				conj = append(conj, fmt.Sprintf("(or (not x%d) %s %s)", o, lt(o, w), lt(i, o)))
 			}
 			alts = append(alts, "(and "+strings.Join(conj, " ")+")")
 		}
-		p.rf[i] = append(p.rf[i], "(assert (or "+strings.Join(alts, " ")+"))")
+		p.rf[i] = append(p.rf[i], fmt.Sprintf("(assert (=> x%d (or %s)))", i, strings.Join(alts, " ")))
 	}
+}
+
+// All asserts that every listed event is executed.
+func (p *PO) All(idx ...int) []string {
+	var out []string
+	for _, i := range idx {
+		out = append(out, ex(i))
+	}
+	return out
 }
 
 // Query asks whether the base constraints plus extra are satisfiable; on sat
@@ -324,14 +343,20 @@ func (p *PO) Query(extra ...string) (Verdict, []int) {
 		for i := range p.ev {
 			exprs = append(exprs, clock(i))
 		}
+		for i := range p.ev {
+			exprs = append(exprs, ex(i))
+		}
 		if vals, ok := p.sol.GetValue(exprs); ok {
 			type kv struct {
 				i int
 				c int64
 			}
 			var ks []kv
-			for i, s := range vals {
-				c, _ := parseIntValue(s)
+			for i := range p.ev {
+				if strings.TrimSpace(vals[len(p.ev)+i]) != "true" {
+					continue // not executed in the witness
+				}
+				c, _ := parseIntValue(vals[i])
 				ks = append(ks, kv{i, c})
 			}
 			sort.SliceStable(ks, func(a, b int) bool { return ks[a].c < ks[b].c })
@@ -391,8 +416,11 @@ func (p *PO) Races(ignore func(loc string) bool) ([]Race, int) {
 				checked++
 				// the two accesses themselves need not keep their observed values
 				p.skip = map[int]bool{idx[a]: true, idx[b]: true}
-				v, order := p.Query(fmt.Sprintf("(= c%d c%d)", idx[a], idx[b]))
+				v, order := p.Query(ex(idx[a]), ex(idx[b]), fmt.Sprintf("(= c%d c%d)", idx[a], idx[b]))
 				p.skip = map[int]bool{}
+				if os.Getenv("GOSYM_DEBUG") != "" {
+					fmt.Fprintf(os.Stderr, "RACEQ %s %d(T%d %s) %d(T%d %s) -> %v\n", loc, idx[a], x.Tid, x.Kind, idx[b], y.Tid, y.Kind, v)
+				}
 				if v == Sat {
 					seen[key] = true
 					out = append(out, Race{A: idx[a], B: idx[b], Loc: loc, Order: order})
